@@ -186,6 +186,12 @@ class LayoutScenario(explore.Scenario):
                 ["ivs", "S1", "discard", "B1"], ["ivs", "S2", "add", "B1"],
                 ["blocks", "B1", "remove", "K1"], ["blocks", "B1", "pop", None],
                 ["ivs", "S1", "remove", "B1"], ["ivs", "S1", "pop", None],
+                # in-place operators with plain-set operands: a member leaves
+                # by ^= / -= / &=, a non-member enters by ^=
+                ["blocks", "B1", "ixor", ["K1", "K4"]],
+                ["ivs", "S1", "ixor", ["B1", "B4"]],
+                ["blocks", "B1", "isub", ["K1"]], ["ivs", "S1", "isub", ["B1"]],
+                ["blocks", "B1", "iand", ["K2"]], ["ivs", "S1", "iand", ["B2"]],
                 # operands that are live owning collections of another parent
                 ["blocks", "B2", "ior_live", "B1"],
                 ["blocks", "B1", "update_live", "B2"],
@@ -239,6 +245,14 @@ class LayoutScenario(explore.Scenario):
                         pass  # not a member / empty: as for the built-in
                 elif op[2] == "update_gen":
                     coll.update(O[x] for x in op[3])
+                elif op[2] in ("ixor", "isub", "iand"):
+                    other = set(O[x] for x in op[3])
+                    if op[2] == "ixor":
+                        coll ^= other
+                    elif op[2] == "isub":
+                        coll -= other
+                    else:
+                        coll &= other
                 elif op[2].endswith("_live"):
                     other = (O[op[3]].blocks if kind == "blocks"
                              else O[op[3]].byte_intervals)
